@@ -16,6 +16,8 @@ type Gen struct {
 	tdNames      []string
 	NoActInGroup bool
 	NoAbsentIO   bool
+	IONames      bool // some data nodes are named input or output
+	ioUsed       map[string]bool
 	R            *rand.Rand
 	n            int
 	Mods         []*Mod // modules and submodules
@@ -51,6 +53,12 @@ func (g *Gen) impPrefix(f *Mod) string {
 		pool := []string{"q0", "q1", "q2"}
 		if f.Sub && f.Owner != nil && f.Owner.Prefix != f.Prefix {
 			pool = append(pool, f.Owner.Prefix, f.Owner.Prefix)
+		}
+		// the name of a module imported earlier in this file, as the prefix of another
+		// module (prefixes and module names are different things, and a prefix that reads
+		// like a module name still denotes the module it was declared for)
+		for _, im := range f.Imports {
+			pool = append(pool, im.Mod.Name, im.Mod.Name)
 		}
 		q := pool[g.pick(len(pool))]
 		taken := q == f.Prefix
@@ -638,6 +646,21 @@ func (g *Gen) node(s *Scope, c ctx) *Node {
 	}
 	k := kinds[g.pick(len(kinds))]
 	n := &Node{Kind: k, Name: g.name("n")}
+	if g.IONames && (k == "container" || k == "leaf" || k == "list") && (c.pk == "container" || c.pk == "list") && !c.inGroup && !c.inChoice && g.pick(10) == 0 {
+		// data nodes that happen to be called input or output (each name once per set, so
+		// that no two of them can meet in one parent): below anything but an rpc or action
+		// they are children like all others
+		for _, nm := range []string{"input", "output"} {
+			if !g.ioUsed[nm] {
+				if g.ioUsed == nil {
+					g.ioUsed = map[string]bool{}
+				}
+				g.ioUsed[nm] = true
+				n.Name = nm
+				break
+			}
+		}
+	}
 	if k != "rpc" && k != "action" && k != "notification" {
 		n.IfF = g.iff(5)
 	}
